@@ -44,6 +44,11 @@ RULE = ("random masks (densities 0.1-0.9, plus single pixels, rings with holes, 
         "no_blur, normalize=True and .normalized with sums +-2^j), mask / kernel / array pixel scales and origins all different, mapping "
         "matrices with 0 columns, masks without any unmasked pixel, the all-zero kernel, one mask with 256 unmasked pixels, every call made twice with the same object and the "
         "argument's contents and dtype compared afterwards. "
+        "DIRECTED-KERNEL stream: one-hot kernels (entry 1 and entry c != 1) at every cell of every odd shape 1..7 x 1..7 through the "
+        "whole-frame convolution (with and without mask), and for sampled cells (all cells in the thorough tier) and two-hot / "
+        "centre-1-plus-cancelling / identity-plus-2^-30 kernels the full pipeline (whole frame, with mask, masked array, Convolver image / "
+        "no-blurring / identity mapping matrix, noise-free simulator -> apply_mask -> convolver -> zero residual); the same directed kernels "
+        "are mixed into the fresh, history, input-kind and simulator streams. "
         "Entry points: Convolver.convolve_image / convolve_image_no_blurring / convolve_image_no_blurring_interpolation / convolve_mapping_matrix, "
         "Kernel2D.convolved_array_from / convolved_array_with_mask_from, SimulatorImaging.via_image_from -> apply_mask -> convolver, "
         "Imaging(...) -> apply_mask -> apply_over_sampling -> convolver. "
